@@ -96,6 +96,11 @@ def rule_ambient_j2(ctx, ts):
     ctx.floor(R, n_taint, 8)
 
 
+def _returned_local(fnode):
+    names = {r.value.id for r in ast.walk(fnode) if isinstance(r, ast.Return) and isinstance(r.value, ast.Name)}
+    return next(iter(names)) if len(names) == 1 else None
+
+
 def rule_platform_version(ctx, px):
     R = "R-C07-PLATFORM"
     ctx.rule(
@@ -105,10 +110,13 @@ def rule_platform_version(ctx, px):
     )
     f = px.func("nunavut.jinja.environment", "CodeGenEnvironment._create_platform_version")
     n = 0
+    pv = _returned_local(f.node)
+    if pv is None:
+        raise AnalysisError("anchor changed: _create_platform_version no longer returns a local mapping")
     for st, g in pyfront.walk_guarded(f.node.body):
         if isinstance(st, ast.Assign):
             for tg in st.targets:
-                if isinstance(tg, ast.Subscript) and isinstance(tg.value, ast.Name) and tg.value.id == "platform_version":
+                if isinstance(tg, ast.Subscript) and isinstance(tg.value, ast.Name) and tg.value.id == pv:
                     key = ast.unparse(tg.slice)
                     n += 1
                     terms = pyfront.guard_terms(g)
@@ -118,7 +126,7 @@ def rule_platform_version(ctx, px):
                            "" if ok else "platform datum exposed to templates without the auditing guard", st.lineno)
         elif isinstance(st, ast.Expr) and isinstance(st.value, ast.Call):
             d = effects.dotted(st.value.func)
-            if d and d.startswith("platform_version."):
+            if d and d.startswith(pv + "."):
                 n += 1
                 terms = pyfront.guard_terms(g)
                 ok = ("embed_auditing_info", True) in terms
@@ -206,7 +214,8 @@ def _chk_audit_guard_only(site, pm, px):
 
 def _chk_python_version(site, pm, px):
     st = _stmt(site, pm)
-    ok = isinstance(st, ast.Assign) and ast.unparse(st.targets[0]) == "platform_version['python_version']"
+    pv = _returned_local(site.func.node) if site.func is not None else None
+    ok = isinstance(st, ast.Assign) and pv is not None and ast.unparse(st.targets[0]) == f"{pv}['python_version']"
     return ok, "interpreter version is reported as part of the tool version"
 
 
@@ -378,24 +387,33 @@ def rule_order(ctx, px, ts):
         return None
 
     # classified iterations: (function short, collection text) -> reason  (order provably output-irrelevant)
+    class _Anon(ast.NodeTransformer):
+        def visit_Name(self, node):
+            return node if node.id in ("self", "cls", "set", "frozenset", "sorted", "list", "tuple") else ast.copy_location(ast.Name(id="_", ctx=node.ctx), node)
+
+    def coll_key(expr):
+        """collection text with every local/parameter name anonymised: the classification must not depend on variable names"""
+        import copy
+        return ast.unparse(_Anon().visit(copy.deepcopy(expr)))
+
     ACCEPT = {
-        ("IncludeGenerator.generate_include_filepart_list", "dep_types.composite_types"):
+        ("IncludeGenerator.generate_include_filepart_list", "_.composite_types"):
             "list is returned through sorted() when sort is true - checked below as its own obligation",
-        ("Namespace._bfs_search_for_output_path", "namespace._nested_namespaces"):
+        ("Namespace._bfs_search_for_output_path", "_._nested_namespaces"):
             "search for the unique namespace holding the type; result independent of visiting order (one owner per type: R-C11)",
-        ("Namespace._recursive_data_type_generator", "namespace.get_nested_namespaces()"):
+        ("Namespace._recursive_data_type_generator", "_.get_nested_namespaces()"):
             "processing order of files only; per-file content is order independent (R-C10)",
-        ("Namespace._recursive_namespace_generator", "namespace.get_nested_namespaces()"):
+        ("Namespace._recursive_namespace_generator", "_.get_nested_namespaces()"):
             "processing order of files only (R-C10)",
-        ("Namespace._recursive_data_type_and_namespace_generator", "namespace.get_nested_namespaces()"):
+        ("Namespace._recursive_data_type_and_namespace_generator", "_.get_nested_namespaces()"):
             "processing order of files only (R-C10)",
-        ("build_namespace_tree", "namespace_index"):
+        ("build_namespace_tree", "_"):
             "order of linking parents and children; the links form sets, result is order independent",
-        ("DSDLTemplateLoader.get_templates", "files"): "returned through sorted()",
+        ("DSDLTemplateLoader.get_templates", "_"): "returned through sorted()",
         ("Namespace.get_nested_namespaces", "self._nested_namespaces"):
             "producer of a set-ordered iterator; every consumer (Python and template) is an obligation of its own",
         ("LanguageContextBuilder._new_language_map",
-         "set(self.get_supported_language_names()) - set((target_language.name,))"):
+         "set(self.get_supported_language_names()) - set((_.name,))"):
             "registration order of languages; each language registers names under its own ln.<name>. prefix (disjoint keys)",
     }
     n = 0
@@ -433,8 +451,8 @@ def rule_order(ctx, px, ts):
                     if par is None:
                         break
                 n += 1
-                key = (f.short, coll)
-                construct = f"{f.short} iterates {coll}"
+                key = (f.short, coll_key(it))
+                construct = f"{f.short} iterates {coll_key(it)}"
                 if wrapped:
                     ctx.ob(R, f.module.rel, construct, True, "order erased by sorted()/set()/aggregate", node.lineno)
                 elif key in ACCEPT:
